@@ -22,11 +22,18 @@ open Biscuit.Grammar
 
 def knownLexerRules : List (String × String) := [("Keyword", "check if|allow if|deny if"), ("Function", "(prefix|suffix|matches|length|contains)\\b"), ("Hex", "hex:([0-9a-fA-F]{2})*"), ("Dot", "\\."), ("Arrow", "<-"), ("Or", "\\|\\|"), ("And", "&&"), ("Operator", "==|>=|<=|>|<|\\+|-|\\*"), ("Comment", "//[^\\n]*"), ("String", "\\\"[^\\\"]*\\\""), ("Variable", "\\$[a-zA-Z0-9_:]+"), ("Parameter", "\\{[a-zA-Z0-9_:]+\\}"), ("DateTime", "\\d\\d\\d\\d-\\d\\d-\\d\\dT\\d\\d:\\d\\d:\\d\\d(\\.\\d+)?(Z|([-+]\\d\\d:\\d\\d))?"), ("Int", "[0-9]+"), ("Bool", "(true|false)\\b"), ("Ident", "[a-z][a-zA-Z0-9_:]*"), ("Whitespace", "[ \\t]+"), ("EOL", "[\\n\\r]+"), ("Punct", "[-[!@%^&#$*()+_={}\\|:;\"'<,>.?/]|]")]
 
-def knownGrammarFields : List (String × String × String) := [("Block.Comments", "[]*parser.Comment", "@Comment*"), ("Block.Body", "[]*parser.BlockElement", "(@@ \";\")*"), ("Authorizer.Comments", "[]*parser.Comment", "@Comment*"), ("Authorizer.Body", "[]*parser.AuthorizerElement", "(@@ \";\")*"), ("Rule.Comments", "[]*parser.Comment", "@Comment*"), ("Rule.Head", "*parser.Predicate", "@@"), ("Rule.Body", "[]*parser.RuleElement", "\"<-\" @@ (\",\" @@)*"), ("Check.Queries", "[]*parser.CheckQuery", "\"check if\" @@ ( \"or\" @@ )*"), ("Policy.Allow", "*parser.Allow", "@@"), ("Policy.Deny", "*parser.Deny", "|@@"), ("Predicate.Name", "*string", "@Ident"), ("Predicate.IDs", "[]*parser.Term", "\"(\" (@@ (\",\" @@)*)? \")\""), ("BlockElement.Check", "*parser.Check", "@@"), ("BlockElement.Predicate", "*parser.Predicate", "|@@"), ("BlockElement.RuleBody", "[]*parser.RuleElement", "(\"<-\" @@ (\",\" @@)*)?"), ("AuthorizerElement.Policy", "*parser.Policy", "@@"), ("AuthorizerElement.BlockElement", "*parser.BlockElement", "|@@"), ("RuleElement.Predicate", "*parser.Predicate", "@@"), ("RuleElement.Expression", "*parser.Expression", "|@@"), ("CheckQuery.Body", "[]*parser.RuleElement", "@@ (\",\" @@)*"), ("Allow.Queries", "[]*parser.CheckQuery", "\"allow if\" @@ ( \"or\" @@ )*"), ("Deny.Queries", "[]*parser.CheckQuery", "\"deny if\" @@ ( \"or\" @@ )*"), ("Term.Parameter", "*parser.Parameter", "@Parameter"), ("Term.Variable", "*parser.Variable", "| @Variable"), ("Term.Bytes", "*parser.HexString", "| @@"), ("Term.String", "*string", "| @String"), ("Term.Date", "*string", "| @DateTime"), ("Term.Integer", "*int64", "| @Int"), ("Term.Bool", "*parser.Bool", "| @Bool"), ("Term.Set", "[]*parser.Term", "| \"[\" @@ (\",\" @@)* \"]\""), ("Expression.Left", "*parser.Expr1", "@@"), ("Expression.Right", "[]*parser.OpExpr1", "@@*"), ("Expr1.Left", "*parser.Expr2", "@@"), ("Expr1.Right", "[]*parser.OpExpr2", "@@*"), ("OpExpr1.Operator", "parser.Operator", "@(\"||\")"), ("OpExpr1.Expr1", "*parser.Expr1", "@@"), ("Expr2.Left", "*parser.Expr3", "@@"), ("Expr2.Right", "*parser.OpExpr3", "@@?"), ("OpExpr2.Operator", "parser.Operator", "@(\"&&\")"), ("OpExpr2.Expr2", "*parser.Expr2", "@@"), ("Expr3.Left", "*parser.Expr4", "@@"), ("Expr3.Right", "[]*parser.OpExpr4", "@@*"), ("OpExpr3.Operator", "parser.Operator", "@(\"<=\" | \">=\" | \"<\" | \">\" | \"==\")"), ("OpExpr3.Expr3", "*parser.Expr3", "@@"), ("Expr4.Left", "*parser.Expr5", "@@"), ("Expr4.Right", "[]*parser.OpExpr5", "@@*"), ("OpExpr4.Operator", "parser.Operator", "@(\"+\" | \"-\")"), ("OpExpr4.Expr4", "*parser.Expr4", "@@"), ("Expr5.Operator", "*parser.Operator", "@(\"!\")?"), ("Expr5.Expr6", "*parser.Expr6", "@@"), ("OpExpr5.Operator", "parser.Operator", "@(\"*\" | \"/\")"), ("OpExpr5.Expr5", "*parser.Expr5", "@@"), ("Expr6.Left", "*parser.ExprTerm", "@@"), ("Expr6.Right", "[]*parser.OpExpr7", "@@*"), ("ExprTerm.Term", "*parser.Term", "@@"), ("ExprTerm.Expression", "*parser.Expression", "| \"(\" @@? \")\""), ("OpExpr7.Operator", "parser.Operator", "Dot @(\"matches\" | \"starts_with\" | \"ends_with\" | \"contains\" | \"union\" | \"intersection\" | \"length\")"), ("OpExpr7.Expression", "*parser.Expression", "\"(\" @@? \")\"")]
+def knownGrammarFields : List (String × String × String) := [("Block.Comments", "[]*parser.Comment", "@Comment*"), ("Block.Body", "[]*parser.BlockElement", "(@@ \";\")*"), ("Authorizer.Comments", "[]*parser.Comment", "@Comment*"), ("Authorizer.Body", "[]*parser.AuthorizerElement", "(@@ \";\")*"), ("Rule.Comments", "[]*parser.Comment", "@Comment*"), ("Rule.Head", "*parser.Predicate", "@@"), ("Rule.Body", "[]*parser.RuleElement", "\"<-\" @@ (\",\" @@)*"), ("Check.Queries", "[]*parser.CheckQuery", "\"check if\" @@ ( \"or\" @@ )*"), ("Policy.Allow", "*parser.Allow", "@@"), ("Policy.Deny", "*parser.Deny", "|@@"), ("Predicate.Name", "*string", "@Ident"), ("Predicate.IDs", "[]*parser.Term", "\"(\" (@@ (\",\" @@)*)? \")\""), ("BlockElement.Check", "*parser.Check", "@@"), ("BlockElement.Predicate", "*parser.Predicate", "|@@"), ("BlockElement.RuleBody", "[]*parser.RuleElement", "(\"<-\" @@ (\",\" @@)*)?"), ("AuthorizerElement.Policy", "*parser.Policy", "@@"), ("AuthorizerElement.BlockElement", "*parser.BlockElement", "|@@"), ("RuleElement.Predicate", "*parser.Predicate", "@@"), ("RuleElement.Expression", "*parser.Expression", "|@@"), ("CheckQuery.Body", "[]*parser.RuleElement", "@@ (\",\" @@)*"), ("Allow.Queries", "[]*parser.CheckQuery", "\"allow if\" @@ ( \"or\" @@ )*"), ("Deny.Queries", "[]*parser.CheckQuery", "\"deny if\" @@ ( \"or\" @@ )*"), ("Term.Parameter", "*parser.Parameter", "@Parameter"), ("Term.Variable", "*parser.Variable", "| @Variable"), ("Term.Bytes", "*parser.HexString", "| @@"), ("Term.String", "*string", "| @String"), ("Term.Date", "*string", "| @DateTime"), ("Term.Integer", "*int64", "| @(\"-\"? Int)"), ("Term.Bool", "*parser.Bool", "| @Bool"), ("Term.Set", "[]*parser.Term", "| \"[\" @@ (\",\" @@)* \"]\""), ("Expression.Left", "*parser.Expr1", "@@"), ("Expression.Right", "[]*parser.OpExpr1", "@@*"), ("Expr1.Left", "*parser.Expr2", "@@"), ("Expr1.Right", "[]*parser.OpExpr2", "@@*"), ("OpExpr1.Operator", "parser.Operator", "@(\"||\")"), ("OpExpr1.Expr1", "*parser.Expr1", "@@"), ("Expr2.Left", "*parser.Expr3", "@@"), ("Expr2.Right", "*parser.OpExpr3", "@@?"), ("OpExpr2.Operator", "parser.Operator", "@(\"&&\")"), ("OpExpr2.Expr2", "*parser.Expr2", "@@"), ("Expr3.Left", "*parser.Expr4", "@@"), ("Expr3.Right", "[]*parser.OpExpr4", "@@*"), ("OpExpr3.Operator", "parser.Operator", "@(\"<=\" | \">=\" | \"<\" | \">\" | \"==\")"), ("OpExpr3.Expr3", "*parser.Expr3", "@@"), ("Expr4.Left", "*parser.Expr5", "@@"), ("Expr4.Right", "[]*parser.OpExpr5", "@@*"), ("OpExpr4.Operator", "parser.Operator", "@(\"+\" | \"-\")"), ("OpExpr4.Expr4", "*parser.Expr4", "@@"), ("Expr5.Operator", "*parser.Operator", "@(\"!\")?"), ("Expr5.Expr6", "*parser.Expr6", "@@"), ("OpExpr5.Operator", "parser.Operator", "@(\"*\" | \"/\")"), ("OpExpr5.Expr5", "*parser.Expr5", "@@"), ("Expr6.Left", "*parser.ExprTerm", "@@"), ("Expr6.Right", "[]*parser.OpExpr7", "@@*"), ("ExprTerm.Term", "*parser.Term", "@@"), ("ExprTerm.Expression", "*parser.Expression", "| \"(\" @@? \")\""), ("OpExpr7.Operator", "parser.Operator", "Dot @(\"matches\" | \"starts_with\" | \"ends_with\" | \"contains\" | \"union\" | \"intersection\" | \"length\")"), ("OpExpr7.Expression", "*parser.Expression", "\"(\" @@? \")\"")]
 
 theorem lexerRules_tied : Generated.lexerRules = knownLexerRules := by decide +kernel
 
 theorem grammarFields_tied : Generated.grammarFields = knownGrammarFields := by decide +kernel
+
+/-- The production of integer literals carries an optional sign: the Operator token `-` and the
+Int token are captured together (`Grammar.parseAtomTerm`, `PTerm.negInt`).  With the unsigned
+production `| @Int` negative literals are rejected, against GRAMMAR.md. -/
+theorem integer_production_signed :
+    (Generated.grammarFields.find? (·.1 == "Term.Integer")).map (·.2.2) = some "| @(\"-\"? Int)" := by
+  decide +kernel
 
 /-- The order of the rules is the order in which `lexOne` tries its branches. -/
 theorem lexerRule_order : Generated.lexerRules.map (·.1) =
